@@ -2,6 +2,7 @@ import CatiiProofs.KernTop
 import CatiiProofs.KernMany
 import CatiiProofs.KernManyRefine
 import CatiiProofs.KernGenBridge
+import CatiiProofs.KernManyGenBridge
 /-!
 # C08 — sorted-set kernels compute exact set algebra
 
@@ -172,6 +173,14 @@ theorem generated_difference_exact (junk : Nat → Nat) (L R : Array Nat) (hL : 
     ∃ out, KernGen.set_difference_merge_np junk L R = .ok out ∧ SSorted out.toList ∧
       ∀ x, x ∈ out.toList ↔ x ∈ L.toList ∧ x ∉ R.toList := by
   rw [gen_difference_eq]; exact difference_exact L R hL hR
+
+/-- the k-way union REGENERATED from `set_union_merge_many` (the NumPy prelude, the `pointers` / `limits` arrays, the `for arrnum
+in range(num_arrays)` loops with their `continue`, the `-1` sentinel, checked accesses; `len(values) + 1` rounds of fuel for the
+`while 1:`): the strictly increasing union of all the arrays -/
+theorem generated_union_many_exact (junk : Nat → Nat) (arrays : List (Array Nat)) (hs : ∀ a ∈ arrays, SSorted a.toList) :
+    ∃ out, KernGen.set_union_merge_many junk ((concatAll (arrays.filter fun a => a.size ≠ 0)).size + 1) arrays = .ok out ∧
+      SSorted out.toList ∧ ∀ x, x ∈ out.toList ↔ ∃ a ∈ arrays, x ∈ a.toList := by
+  rw [gen_union_many_eq, union_many_loop_is_the_merge]; exact union_many_exact arrays hs
 
 -- non-vacuity: the generated kernels run; the initial content of the result buffer (here 7777...) never shows
 example : KernGen.set_intersect_merge_np (fun i => 7777 + i) #[0, 5, 4294967295] #[5, 4294967295] = .ok #[5, 4294967295] ∧
